@@ -1,2 +1,83 @@
-(* Properties/C10.v - placeholder, replaced below by the real statements *)
-From Verif Require Import LC.
+(* Properties/C10.v - statements only.
+   C10: Length and Capacity report len and cap of the addressed element.
+   [length_capacity] is the model of the emitted Length/Capacity methods
+   (Model/LC.v, the emitter after the five fix: commits), [nav] the native
+   navigation of Spec/Nav.v, [lc_demand] the demand of the property text
+   (Spec/LCSpec.v), [wfn] the well-formedness both parsers establish. *)
+From Coq Require Import List Bool String Ascii ZArith Arith.
+From Verif Require Import Util Ints Node GoSrc Value Outcome Nav LC LCSpec LCSound Shapes GenUnits GenC10.
+Import ListNotations.
+
+(* For EVERY well-formed node (no bound on nesting), every well-typed value and every path,
+   Length/Capacity through a pointer meet the demand: len/cap of the element the path denotes,
+   0 when it denotes nothing or runs into a nil pointer, possibly the parse error when a
+   segment cannot be parsed for the type at its position. *)
+Theorem C10_length_capacity : forall fn n v path res0,
+  wfn n = true -> n_ptr n = false -> wtb n v = true ->
+  meets (length_capacity fn n (APtr (Some v)) path res0) (lc_demand fn n v path).
+Proof. exact length_capacity_sound. Qed.
+Print Assumptions C10_length_capacity.
+
+(* ... they never panic, and the only error is the parse error. *)
+Theorem C10_only_parse_error_no_panic : forall fn n v path res0,
+  wfn n = true -> n_ptr n = false -> wtb n v = true ->
+  safe (length_capacity fn n (APtr (Some v)) path res0).
+Proof. exact length_capacity_safe. Qed.
+Print Assumptions C10_only_parse_error_no_panic.
+
+(* The demand spelled out for the three clauses of the property. *)
+Theorem C10_len : forall n v path res0 en ev x,
+  wfn n = true -> n_ptr n = false -> wtb n v = true ->
+  nav n v path = NElem en ev -> strip_ptrs 3 ev = Some x ->
+  (match x with VStr _ | VBytes _ _ _ | VSlice _ _ _ | VMap _ _ => True | _ => False end) ->
+  type_bad n path = false ->
+  length_capacity FLen n (APtr (Some v)) path res0 = Ret (v_len x) None.
+Proof.
+  intros n v path res0 en ev x W P WT NV SP SH TB.
+  pose proof (length_capacity_sound FLen n v path res0 W P WT) as M.
+  rewrite lc_demand_dem, NV, TB in M. unfold dem in M. cbn [dem0] in M. rewrite SP in M.
+  destruct x; try contradiction; exact M.
+Qed.
+Print Assumptions C10_len.
+
+Theorem C10_cap : forall n v path res0 en ev x,
+  wfn n = true -> n_ptr n = false -> wtb n v = true ->
+  nav n v path = NElem en ev -> strip_ptrs 3 ev = Some x ->
+  (match x with VBytes _ _ _ | VSlice _ _ _ => True | _ => False end) ->
+  type_bad n path = false ->
+  length_capacity FCap n (APtr (Some v)) path res0 = Ret (v_cap x) None.
+Proof.
+  intros n v path res0 en ev x W P WT NV SP SH TB.
+  pose proof (length_capacity_sound FCap n v path res0 W P WT) as M.
+  rewrite lc_demand_dem, NV, TB in M. unfold dem in M. cbn [dem0] in M. rewrite SP in M.
+  destruct x; try contradiction; exact M.
+Qed.
+Print Assumptions C10_cap.
+
+Theorem C10_nothing : forall fn n v path res0 w,
+  wfn n = true -> n_ptr n = false -> wtb n v = true ->
+  nav n v path = NNone w -> type_bad n path = false ->
+  length_capacity fn n (APtr (Some v)) path res0 = Ret 0%Z None.
+Proof.
+  intros fn n v path res0 w W P WT NV TB.
+  pose proof (length_capacity_sound fn n v path res0 W P WT) as M.
+  rewrite lc_demand_dem, NV, TB in M. exact M.
+Qed.
+Print Assumptions C10_nothing.
+
+(* Non-vacuity: the root node of every supported unit of the representative set is
+   well-formed (these are the nodes the correspondence stream runs the generated code of). *)
+Example C10_units_wellformed :
+  forallb (fun u => wfn (root_node u) && negb (n_ptr (root_node u))) (supported_units 0) = true.
+Proof. vm_compute. reflexivity. Qed.
+
+Local Open Scope string_scope.
+Example C10_demo :
+  let n := root_node ("T", TStruct [("F", TMap (TScalar SString) (TSlice Shapes.leaf))]) in
+  let v := VStruct [VMap false [(VStr "k", VSlice false [VStruct [VInt 1; VStr "abc"; VBytes false [] 4; VFloat (Floats.norm64 0 0)]] 2)]] in
+  wtb n v = true /\
+  length_capacity FLen n (APtr (Some v)) ["F"; "k"; "0"; "S"] 77 = Ret 3%Z None /\
+  length_capacity FCap n (APtr (Some v)) ["F"; "k"] 77 = Ret 3%Z None /\
+  length_capacity FCap n (APtr (Some v)) ["F"; "k"; "0"; "B"] 77 = Ret 4%Z None /\
+  length_capacity FLen n (APtr (Some v)) ["F"; "zz"; "0"] 77 = Ret 0%Z None.
+Proof. vm_compute. repeat split; reflexivity. Qed.
